@@ -72,6 +72,22 @@ def campaign(c):
     for n in sizes:
         one(c, size_sweep_program(n), 'size%d' % n)
         c.count('size_sweep')
+    # stored packet sequences (sizes going up and down) emitted by name, several times and in other orders
+    for i in range(25 if c.quick else 400):
+        r = c.rng.fork('stored%d' % i)
+        L = ['import ipv4;', 'import eth;', 'let f = ipv4::tcp::flow(1.2.3.4:5, 6.7.8.9:80);', 'let u = ipv4::udp::flow(1.2.3.4:5, 6.7.8.9:53);']
+        names = []
+        for k in range(1 + r.below(4)):
+            kind = r.below(4)
+            if kind == 0: e = 'f.client_message("|%s|")' % r.bytes(1 + r.below(120)).hex()
+            elif kind == 1: e = 'f.open()'
+            elif kind == 2: e = 'f.server_message("|%s|")' % r.bytes(1 + r.below(60)).hex()
+            else: e = 'u.client_dgram("|%s|")' % r.bytes(r.below(90)).hex()
+            L.append('let s%d = %s;' % (k, e)); names.append('s%d' % k)
+        for _ in range(1 + r.below(6)): L.append(r.choice(names) + ';')
+        if r.chance(1, 2): L.append('f.client_close();')
+        for _ in range(r.below(3)): L.append(r.choice(names) + ';')
+        one(c, ('\n'.join(L) + '\n').encode(), 'stored')
     n = 150 if c.quick else 2500
     for i, src, g in progdiff.generated_programs(c, n):
         one(c, src, 'gen')
